@@ -73,6 +73,29 @@ CLAIMED["C02"] = dict(
     technique="runtime monitoring: accepted-program population x settings matrix with panic, error-text and type-directed value-shape monitors",
 )
 
+CLAIMED["C06"] = dict(
+    category="exploration",
+    text="Every function of the std primitive modules (signatures read from the live VM) is called with boundary-value "
+         "argument tuples in child processes whose death, signal or escaped panic is the witness; random histories of "
+         "failing and succeeding evaluations on one VM are followed by a fixed probe set compared with a fresh VM and by "
+         "frame / value-stack / memory baselines.",
+    design_ref="DESIGN.md §4 C06",
+    note="File-system, process, sleep and stdin primitives are skipped or confined to a scratch directory (listed in the "
+         "evidence assumptions); primitives whose argument types have no boundary generator are counted. F1, F2, F30 fixed.",
+    technique="runtime monitoring: child-process crash monitor over an enumerated primitive x boundary-argument sweep, used-vs-fresh VM differential, stack/memory baseline monitors; ASan and release builds in the thorough tier",
+)
+CLAIMED["C07"] = dict(
+    category="exploration",
+    text="Hook counters observe allocated_memory against memory_limit after every limit-checked allocation and the value "
+         "stack against the configured limit and the static per-function bound at every instruction, over sweeps of "
+         "limits and program families; tail-recursive families must show identical peak stack at n = 10, 10^3, 10^5; deep "
+         "recursion / deep data run on an ordinary 8 MiB thread in a child process; interrupts are judged in call steps.",
+    design_ref="DESIGN.md §4 C07",
+    note="'Promptly' = at most 100 VM call steps after interrupt() returned. F4 (GC marking recursion exhausts the "
+         "native stack on deep data) listed; F3 fixed.",
+    technique="runtime monitoring: invariant counters on allocation and stack hooks, child-process crash monitor, logical step counter via the VM debug hook",
+)
+
 NOT_YET = "check not built yet in this session (work in progress; see DESIGN.md for the planned monitor)"
 
 def main():
